@@ -50,7 +50,7 @@ def build_cases(ctx, families=None):
 def to_tcp(r, prog):
     s = prog.stream()
     sizes = G.random_chunking(r, s)
-    pause = r.choice([0, 0, 0, 1, 3]) if len(sizes) < 600 else 0
+    pause = r.choice([0, 0, 0, 0, 2, 8]) if len(sizes) < 600 else 0
     return resplib.TcpCase(prog.name, s, sizes, "F", pause)
 
 
